@@ -170,6 +170,9 @@ theorem settle_halted (s : St) : (settle specs s).halted = true := by
   unfold settle
   rw [run_of_iter_halted specs _ _ hN]; exact hN
 
+theorem settle_of_halted {s : St} (h : s.halted = true) : settle specs s = s :=
+  settle_eq specs (m := 0) h
+
 theorem settle_eq_iter (s : St) : settle specs s = iter specs (s.measure + 1) s := by
   have hN := iter_measure_halted specs (s.measure + 1) s (by omega)
   unfold settle
